@@ -54,6 +54,7 @@ def check(ctx) -> None:
     ctx.rule("C25.transitive", "is_subtype is transitive on the universe without Any", floor=1)
     ctx.rule("C25.any-top", "is_subtype(T, Any) and is_maybe_subtype(T, Any) for every T", floor=30)
     ctx.rule("C25.union-all", "a union is a subtype of T exactly when all its members are; a maybe-subtype when some member is", floor=100)
+    ctx.rule("C25.union-target", "a non-union type is a subtype of a union exactly when it is a subtype of some member - with the strict relation for is_subtype, the lenient one for is_maybe_subtype (unions nested in tuples included)", floor=100)
     ctx.rule("C25.class-agree", "Instance(X) <: Instance(Y) iff X is a (transitive) subclass of Y in the model hierarchy incl. the numeric tower", floor=100)
     ctx.rule("C25.maybe-superset", "is_subtype(A, B) implies is_maybe_subtype(A, B)", floor=1)
     ctx.rule("C25.distance-defined", "subtype_distance(T, S) is defined only when S may be a subtype of T", floor=1)
@@ -140,6 +141,25 @@ def check(ctx) -> None:
                 bad_any.append((u, t))
     report_grouped(ctx, "C25.union-all", anchor_sub, "union <: T iff all members <: T", bad_all, lambda v: f"is_subtype({v[0].label}, {v[1].label}) = {sub(v[0], v[1])}")
     report_grouped(ctx, "C25.union-all", anchor_maybe, "union maybe<: T iff some member maybe<: T", bad_any, lambda v: f"is_maybe_subtype({v[0].label}, {v[1].label}) = {maybe(v[0], v[1])}")
+
+    # a non-union against a union target: some member suffices - strictly for is_subtype, leniently for is_maybe_subtype
+    bad_strict, bad_lenient = [], []
+    for a in U:
+        if a.classes[0] in ("UnionType", "AnyType"):
+            continue
+        for t in unions:
+            if any(x.classes[0] == "AnyType" for x in t.fields["items"]):
+                continue
+            want_s = any(sub(a, x) for x in t.fields["items"])
+            want_m = any(maybe(a, x) for x in t.fields["items"])
+            if bool(sub(a, t)) != want_s:
+                bad_strict.append((a, t, want_s))
+            else:
+                ctx.ok("C25.union-target", anchor_sub, f"{a.label} <: {t.label} == some member")
+            if bool(maybe(a, t)) != want_m:
+                bad_lenient.append((a, t, want_m))
+    report_grouped(ctx, "C25.union-target", anchor_sub, "non-union <: union iff it is a (strict) subtype of some member", bad_strict, lambda v: f"is_subtype({v[0].label}, {v[1].label}) = {sub(v[0], v[1])}, member-wise {v[2]}")
+    report_grouped(ctx, "C25.union-target", anchor_maybe, "non-union maybe<: union iff it may be a subtype of some member", bad_lenient, lambda v: f"is_maybe_subtype({v[0].label}, {v[1].label}) = {maybe(v[0], v[1])}, member-wise {v[2]}")
 
     # class agreement
     plain = [t for t in U if t.classes[0] == "Instance" and not t.fields["args"]]
